@@ -94,11 +94,19 @@ def _ref(r, rx):
     return {'ns': r.ns, 'name': r.name, 'pos': jpos, 'kw': jkw, 'nullable': bool(r.nullable)}
 
 
+def _annots(node):
+    return [[a.ns, a.annotation] for a in (getattr(node, 'annotations', None) or [])]
+
+
 def _field(f, rx):
     from stone.frontend.ast import AstVoidField
     if isinstance(f, AstVoidField):
-        return {'name': f.name, 'ty': None, 'has_default': False}
-    return {'name': f.name, 'ty': _ref(f.type_ref, rx), 'has_default': bool(f.has_default)}
+        return {'name': f.name, 'ty': None, 'has_default': False, 'annots': _annots(f)}
+    return {'name': f.name, 'ty': _ref(f.type_ref, rx), 'has_default': bool(f.has_default), 'annots': _annots(f)}
+
+
+ANNOT_KINDS = {'Deprecated': 'deprecated', 'Omitted': 'omitted', 'Preview': 'preview', 'RedactedBlot': 'redacted',
+               'RedactedHash': 'redacted'}
 
 
 def to_ast(partial_asts):
@@ -135,6 +143,8 @@ def to_ast(partial_asts):
                               'fields': [_field(f, rx) for f in item.fields]})
             elif isinstance(item, A.AstAlias):
                 decls.append({'k': 'alias', 'name': item.name, 'ref': _ref(item.type_ref, rx)})
+                if _annots(item):
+                    decls.append({'k': 'alias_annots', 'name': item.name, 'annots': _annots(item)})
             elif isinstance(item, A.AstRouteDef):
                 dep = None
                 if item.deprecated:
@@ -146,7 +156,9 @@ def to_ast(partial_asts):
             elif isinstance(item, A.AstImport):
                 decls.append({'k': 'import', 'target': item.target})
             elif isinstance(item, A.AstAnnotationDef):
-                decls.append({'k': 'annot', 'name': item.name})
+                builtin = item.annotation_type_ns is None and item.annotation_type in ANNOT_KINDS
+                decls.append({'k': 'annot', 'name': item.name,
+                              'kind': ANNOT_KINDS[item.annotation_type] if builtin else 'custom'})
             elif isinstance(item, A.AstAnnotationTypeDef):
                 decls.append({'k': 'annot_type', 'name': item.name})
                 if item.params:
@@ -292,6 +304,17 @@ TEMPLATES = [
     (r"%s is not a subtype of %s\." % (Q, Q), 'notSubtype'),
     (r"%s does not enumerate all subtypes, missing" % Q, 'missingSubtype'),
     (r"Subtype %s cannot be extended\." % Q, 'subtypeExtended'),
+    (r"Annotation %s does not exist\." % Q, 'annotNotExist'),
+    (r"Annotation .* not recognized for field\.", 'annotNotRecognized'),
+    (r"Aliases only support 'Redacted' and custom annotations", 'aliasAnnotUnsupported'),
+    (r"Deprecated value already set", 'deprecatedTwice'),
+    (r"Omitted caller already set", 'omittedTwice'),
+    (r"Preview value already set", 'previewTwice'),
+    (r"Redactor already set as", 'redactorTwice'),
+    (r"'Deprecated' and 'Preview' can't both be set\.", 'deprecatedPreview'),
+    (r"Redactors can only be applied to alias definitions", 'redactorOnAliasRef'),
+    (r"A redactor has already been defined for", 'redactorAlready'),
+    (r"Redactors can't be applied to user-defined or void types\.", 'redactorOnUser'),
     (r"Route %s must specify three data types" % Q, 'routeTwoTypes'),
     (r"Undefined route %s at version" % Q, 'undefinedRoute'),
     (r"%s must be a route\." % Q, 'notRoute'),
@@ -710,6 +733,8 @@ def _ns(body, name='na'):
 
 
 # one spec per modelled error site (and a few accepted corner cases); (label, files, expected kind or 'ok')
+AN = '''annotation Dep = Deprecated()\n\nannotation Pre = Preview()\n\nannotation Omi = Omitted("internal")\n\nannotation Blot = RedactedBlot()\n\nannotation Hash = RedactedHash("x")\n\n'''
+
 SEEDS = [
     ('symbolDefined', [('a.stone', _ns('struct S\n    x String\n\nunion S\n    a\n'))], 'symbolDefined'),
     ('symbolDefined-builtin', [('a.stone', _ns('alias String = Int32\n'))], 'symbolDefined'),
@@ -808,6 +833,29 @@ SEEDS = [
     ('patch-member-of-ancestor', [('a.stone', _ns('struct P\n    x String\n\nstruct S extends P\n    y String\n\npatch struct S\n    x Int32\n'))], 'parentField'),
     ('patch-member-twice-in-patch', [('a.stone', _ns('struct S\n    x String\n\npatch struct S\n    y Int32\n    y Int64\n'))], 'dupField'),
     ('patch-undefined-type', [('a.stone', _ns('struct S\n    x String\n\npatch struct S\n    y T\n'))], 'undefinedSymbol'),
+    ('annot-ok', [('a.stone', _ns('%sstruct S\n    x String\n        @Dep\n        @Omi\n        @Blot\n    y List(Map(String, Int32?))?\n        @Pre\n        @Hash\n\nunion U\n    a\n        @Dep\n    b String\n        @Blot\n\nalias A = String\n    @Blot\n\nstruct T\n    z List(A)\n' % AN))], 'ok'),
+    ('annot-imported-ok', [('a.stone', _ns('import nb\n\nstruct S\n    x String\n        @nb.Dep\n')), ('b.stone', _ns('annotation Dep = Deprecated()\n', 'nb'))], 'ok'),
+    ('annotNotExist', [('a.stone', _ns('struct S\n    x String\n        @Nope\n'))], 'annotNotExist'),
+    ('annotNotExist-alias', [('a.stone', _ns('alias A = String\n    @Nope\n'))], 'annotNotExist'),
+    ('annot-nsNotImported', [('a.stone', _ns('struct S\n    x String\n        @nb.Dep\n')), ('b.stone', _ns('annotation Dep = Deprecated()\n', 'nb'))], 'nsNotImported'),
+    ('annotNotRecognized', [('a.stone', _ns('struct T\n    y String\n\nstruct S\n    x String\n        @T\n'))], 'annotNotRecognized'),
+    ('annotNotRecognized-builtin', [('a.stone', _ns('struct S\n    x String\n        @String\n'))], 'annotNotRecognized'),
+    ('aliasAnnotUnsupported', [('a.stone', _ns('%salias A = String\n    @Dep\n' % AN))], 'aliasAnnotUnsupported'),
+    ('deprecatedTwice', [('a.stone', _ns('%sstruct S\n    x String\n        @Dep\n        @Dep\n' % AN))], 'deprecatedTwice'),
+    ('omittedTwice', [('a.stone', _ns('%sstruct S\n    x String\n        @Omi\n        @Omi\n' % AN))], 'omittedTwice'),
+    ('previewTwice', [('a.stone', _ns('%sunion U\n    a\n        @Pre\n        @Pre\n' % AN))], 'previewTwice'),
+    ('redactorTwice', [('a.stone', _ns('%sstruct S\n    x String\n        @Blot\n        @Hash\n' % AN))], 'redactorTwice'),
+    ('redactorTwice-alias', [('a.stone', _ns('%salias A = String\n    @Blot\n    @Hash\n' % AN))], 'redactorTwice'),
+    ('deprecatedPreview', [('a.stone', _ns('%sstruct S\n    x String\n        @Dep\n        @Pre\n' % AN))], 'deprecatedPreview'),
+    ('deprecatedPreview-2', [('a.stone', _ns('%sstruct S\n    x String\n        @Pre\n        @Dep\n' % AN))], 'deprecatedPreview'),
+    ('redactorOnAliasRef', [('a.stone', _ns('%salias A = String\n\nstruct S\n    x A\n        @Blot\n' % AN))], 'redactorOnAliasRef'),
+    ('redactorAlready', [('a.stone', _ns('%salias A = String\n    @Blot\n\nstruct S\n    x A?\n        @Hash\n' % AN))], 'redactorAlready'),
+    ('redactorAlready-alias', [('a.stone', _ns('%salias A = String\n    @Blot\n\nalias B = A\n    @Hash\n' % AN))], 'redactorAlready'),
+    ('redactorOnUser', [('a.stone', _ns('%sstruct T\n    y String\n\nstruct S\n    x T\n        @Blot\n' % AN))], 'redactorOnUser'),
+    ('redactorOnUser-list', [('a.stone', _ns('%sstruct T\n    y String\n\nstruct S\n    x List(Map(String, T?))\n        @Blot\n' % AN))], 'redactorOnUser'),
+    ('redactorOnUser-void-tag', [('a.stone', _ns('%sunion U\n    a\n        @Blot\n' % AN))], 'redactorOnUser'),
+    ('redactor-list-of-alias-ok', [('a.stone', _ns('%sstruct T\n    y String\n\nalias A = T\n\nstruct S\n    x List(A)\n        @Blot\n' % AN))], 'ok'),
+    ('annot-in-patch', [('a.stone', _ns('%sstruct S\n    x String\n\npatch struct S\n    y String\n        @Dep\n        @Pre\n' % AN))], 'deprecatedPreview'),
     ('qualified-builtin', [('a.stone', _ns('import nb\n\nstruct T\n    y String\n\nstruct S\n    x nb.List(T)\n')),
                            ('b.stone', _ns('struct T\n    z Int32\n', 'nb'))], 'ok'),
     ('two-files-one-ns', [('a1.stone', _ns('struct S\n    x T\n    l List(A, min_items=1, max_items=3)?\n')),
